@@ -18,6 +18,13 @@ import time
 
 V = "/verif"
 R = "/repo"
+# WORKTREE=1: apply the change in a scratch worktree of /repo (removed afterwards) and point the check at it with
+# VERIF_REPO / VERIF_OUT instead of touching /repo's own working tree - lets the matrix run next to other work.
+WT = "/tmp/wt_matrix_%d" % os.getpid() if os.environ.get("WORKTREE") else None
+if WT:
+    subprocess.run(f"git -C /repo worktree add -q --detach {WT} HEAD", shell=True, check=True)
+    R = WT
+OUTENV = f"VERIF_REPO={WT} VERIF_OUT=/tmp/matrix_out_{os.getpid()} " if WT else ""
 TIER = os.environ.get("TIER", "quick")
 
 
@@ -48,13 +55,14 @@ def one(name):
         return meta
     t0 = time.time()
     try:
-        r = sh(f"cd {V} && timeout 3000 ./check {pid} {TIER}")
+        r = sh(f"cd {V} && {OUTENV}timeout 3000 ./check {pid} {TIER}")
     finally:
         sh(f"git -C {R} checkout -- .")
     keys = re.findall(r"^VIOLATION property=\S+ replay=\S+\s+key='(.*)'\s*$", r.stdout, flags=re.M)
     meta["check_result"] = {
         "patch_applies_to_current_head": True,
         "repo_head": sh(f"git -C {R} rev-parse --short HEAD").stdout.strip(),
+        "mode": "scratch worktree (VERIF_REPO)" if WT else "/repo working tree",
         "command": f"git -C /repo apply benign/{name}/patch.diff ; ./check {pid} {TIER} ; git -C /repo checkout -- .",
         "exit_code": r.returncode,
         "silent": r.returncode == 0 and not keys and "HARNESS-ERROR" not in r.stdout,
@@ -70,7 +78,8 @@ def main():
     base = os.path.join(V, "benign")
     names = sys.argv[1:] or sorted(n for n in os.listdir(base) if os.path.isdir(os.path.join(base, n)))
     keep = "/tmp/evidence_keep_%d" % os.getpid()
-    shutil.copytree(os.path.join(V, "evidence"), keep)
+    if not WT:
+        shutil.copytree(os.path.join(V, "evidence"), keep)
     try:
         for n in names:
             meta = one(n)
@@ -79,9 +88,10 @@ def main():
             print(n, "silent" if cr.get("silent") else "ALARM", cr.get("exit_code"), cr.get("violation_keys"), cr.get("seconds"), flush=True)
     finally:
         sh(f"git -C {R} checkout -- .")
-        shutil.rmtree(os.path.join(V, "evidence"))
-        shutil.copytree(keep, os.path.join(V, "evidence"))
-        shutil.rmtree(keep)
+        if not WT:
+            shutil.rmtree(os.path.join(V, "evidence"))
+            shutil.copytree(keep, os.path.join(V, "evidence"))
+            shutil.rmtree(keep)
     out = ["# Property-preserving changes: every check must stay silent", "", "| change | files | silent | exit | first key (if any) | s |", "|---|---|---|---|---|---|"]
     for n in sorted(os.listdir(base)):
         mp = os.path.join(base, n, "meta.json")
@@ -94,4 +104,9 @@ def main():
     open(os.path.join(base, "RESULTS.md"), "w").write("\n".join(out) + "\n")
 
 
-main()
+try:
+    main()
+finally:
+    if WT:
+        subprocess.run(f"git -C /repo worktree remove --force {WT}", shell=True)
+        shutil.rmtree(f"/tmp/matrix_out_{os.getpid()}", ignore_errors=True)
